@@ -157,8 +157,8 @@ def relativize(argv):
     file argument with that directory's files named relatively (as users do), otherwise with the
     absolute paths the harness built."""
     argv = [str(a) for a in argv]
-    if _draw("cwd", argv) % 5 != 0:
-        return argv, None
+    if _draw("cwd", argv) % 5 != 0 or any("/../" in a for a in argv):
+        return argv, None  # (names with '..' are passed as they are: shortening them lexically would name another file)
     base = next((os.path.dirname(a) for a in argv[1:] if os.path.isabs(a) and os.path.isfile(a)), None)
     if base is None:
         return argv, None
